@@ -26,7 +26,8 @@ vars == <<st, net, tmr, now, status, g, bad, budget, formedAt, part>>
 
 Nodes == 0..(NN - 1)
 IdOf(n) == <<n + 1, 0>>
-Prefs == {Ranked({IdOf(n) : n \in Nodes}, <<>>), Ranked({IdOf(n) : n \in Nodes}, <<IdOf(NN - 1)>>)}
+Prefs == IF Mode = "c05" THEN {<<>>}
+         ELSE {Ranked({IdOf(n) : n \in Nodes}, <<>>), Ranked({IdOf(n) : n \in Nodes}, <<IdOf(NN - 1)>>)}
 
 Cfg == [period |-> 3, rtt |-> 1, fanout |-> 2, maxtx |-> MaxTx, s2d |-> 5, rda |-> 60, maxpkt |-> 1400,
         notifydown |-> NotifyDown,
@@ -120,9 +121,14 @@ Fire ==
            THEN /\ tmr' = DropAt(tmr, i) /\ UNCHANGED <<st, net, now, status, g, bad, budget, part>>
            ELSE Commit(n, Call(n, "timer", tmr[i].t, pref), net, DropAt(tmr, i))
 
+MutualDown == \A x \in Nodes : \A y \in Nodes :
+                 Grp(x) # Grp(y) => \E i \in DOMAIN st[x].mem : Addr(st[x].mem[i].id) = y + 1 /\ st[x].mem[i].st = "D"
+
 Quiet == net = <<>> /\ \A i \in DOMAIN tmr : tmr[i].due > now \/ Mode = "c18"
 
 Tick == /\ Quiet /\ now < Horizon /\ Mode # "c18"
+        /\ ~(Mode = "c05" /\ part = "cut" /\ MutualDown /\ g.tFault < 0)      \* MarkMutual is urgent
+        /\ ~(Mode = "c05" /\ part = "cut" /\ g.tFault >= 0 /\ now >= g.tFault + 4)  \* no point in waiting unhealed
         /\ now' = now + 1
         /\ UNCHANGED <<st, net, tmr, status, g, bad, budget, part>>
 
@@ -159,17 +165,19 @@ Drop == /\ Mode = "c04" /\ budget > 0 /\ Everyone
              /\ UNCHANGED <<st, tmr, now, status, bad, part>>
 
 \* C05: partition once the cluster is formed; heal at any moment after both sides declared each other Down
-MutualDown == \A x \in Nodes : \A y \in Nodes :
-                 Grp(x) # Grp(y) => \E i \in DOMAIN st[x].mem : Addr(st[x].mem[i].id) = y + 1 /\ st[x].mem[i].st = "D"
 Cut == /\ Mode = "c05" /\ part = "none" /\ Everyone /\ Quiet
        /\ part' = "cut"
        /\ UNCHANGED <<st, net, tmr, now, status, g, bad, budget>>
-Heal == /\ Mode = "c05" /\ part = "cut" /\ MutualDown /\ Quiet
+\* heal instants are swept over one announce-to-down period after mutual Down was reached
+MarkMutual == /\ Mode = "c05" /\ part = "cut" /\ MutualDown /\ g.tFault < 0
+              /\ g' = [g EXCEPT !.tFault = now]
+              /\ UNCHANGED <<st, net, tmr, now, status, bad, budget, part>>
+Heal == /\ Mode = "c05" /\ part = "cut" /\ MutualDown /\ Quiet /\ g.tFault >= 0 /\ now <= g.tFault + 4
         /\ part' = "healed"
         /\ g' = [g EXCEPT !.tHeal = now, !.toldDown = {}]
         /\ UNCHANGED <<st, net, tmr, now, status, bad, budget>>
 
-Next == (Deliver \/ Fire \/ Tick \/ Crash \/ Leave \/ Drop \/ Cut \/ Heal) /\ formedAt' = (IF formedAt < 0 /\ Everyone' THEN now' ELSE formedAt)
+Next == (Deliver \/ Fire \/ Tick \/ Crash \/ Leave \/ Drop \/ Cut \/ MarkMutual \/ Heal) /\ formedAt' = (IF formedAt < 0 /\ Everyone' THEN now' ELSE formedAt)
 
 Spec == Init /\ [][Next]_vars
 
